@@ -315,7 +315,7 @@ impl C17 {
                 for ty in 0..3u8 {
                     let recv: Vec<u32> = got.iter().filter(|x| x.0 == ty).map(|x| x.1).collect();
                     let sent = &sent_s[ty as usize];
-                    check_lists(&mut violations, end, &format!("server->client {c} type {ty}"), sent, &recv, ty != 2);
+                    check_lists(&mut violations, end, &format!("server->client {c} type {ty}"), sent, &recv, true);
                 }
                 if let Some(bad) = got.iter().find(|x| !x.2) {
                     viol(end, "payload_changed", format!("client {c} received seq {} (type {}) with a changed payload", bad.1, bad.0), &mut violations);
@@ -332,7 +332,22 @@ impl C17 {
                 for ty in 0..2u8 {
                     let sent = &sent_c[c][ty as usize];
                     let recv: Vec<u32> = got.iter().filter(|x| x.0 == ty && sent.contains(&x.1)).map(|x| x.1).collect();
-                    check_lists(&mut violations, end, &format!("client {c}->server type {ty}"), sent, &recv, ty == 0);
+                    check_lists(&mut violations, end, &format!("client {c}->server type {ty}"), sent, &recv, true);
+                    // The sender identity is that client's connection entity, the same for all its events.
+                    let who: Vec<Entity> = got.iter().filter(|x| x.0 == ty && sent.contains(&x.1)).map(|x| x.3).collect();
+                    if let Some(first) = who.first() {
+                        if who.iter().any(|e| e != first) {
+                            viol(end, "sender_identity", format!("events of client {c} arrived with different sender entities {who:?}"), &mut violations);
+                        }
+                        for other in 0..n {
+                            if other != c {
+                                let theirs = &sent_c[other];
+                                if got.iter().any(|x| theirs.iter().any(|l| l.contains(&x.1)) && x.3 == *first) {
+                                    viol(end, "sender_identity", format!("events of clients {c} and {other} arrived with the same sender entity {first}"), &mut violations);
+                                }
+                            }
+                        }
+                    }
                 }
             }
             let all_sent: Vec<u32> = sent_c.iter().flat_map(|a| a.iter().flatten().copied()).collect();
